@@ -38,9 +38,10 @@ CLAIMED = {
             technique="Coq proof over position model + translator + extracted-model correspondence", design="§5 C09"),
  "C11": dict(text="Coq theorems (C11/Props.v) over an exact-rational model of Scale and Impute: min/max are members and bounds of the fitting window, min/minmax maps the window into [0,1], "
                   "Scale changes exactly the numeric cells of scaled columns to (x+shift)*scale using the first `using` rows and nothing else, Impute changes no non-missing value, fills missing "
-                  "values with the window statistic and appends the same number of indicator cells to every row. Dense and sparse variants are tied by correspondence of the extracted model "
+                  "values with the window statistic and appends the same number of indicator cells to every row; scale_sparse_applies / impute_sparse_spec state the same entry by entry for sparse contexts (a row that does not hold a key counts as 0 in its column; "
+                  "keys outside the window or non-numeric in the first row are left alone; no entry is added, dropped or re-keyed). Dense and sparse variants are tied by correspondence of the extracted model "
                   "with the code; an independent Fraction oracle covers scalar contexts, std, Environments.impute/scale and filter objects reused on other data.",
-            note="Trusted: Coq kernel, extraction+driver, harness (tolerance 1e-9 between exact rationals and binary64). std (sqrt) and scalar contexts are oracle-only; the sparse variants have no cell-level theorem (correspondence only). NaN inputs are not generated.",
+            note="Trusted: Coq kernel, extraction+driver, harness (tolerance 1e-9 between exact rationals and binary64). std (sqrt) and scalar contexts are oracle-only. NaN inputs are not generated.",
             technique="Coq proof over exact-rational model + extracted-model correspondence + Fraction oracle", design="§5 C11"),
  "C18": dict(text="Coq theorems (C18/Props.v): moving_average's sliding/prefix accumulations equal the sums of the last min(span,i+1) / first i+1 entries (for numerators and weights); moving_average_is_textbook: for EVERY span (None, the span=1 shortcut, below/at/above the length) and with or without explicit weights, "
                   "entry i times the window's weight sum equals the window's weighted value sum times the denominator (the textbook quotient, cross-multiplied); exponential_moving_average_closed_form: weights='exp' gives sum r^(i-j) v_j / sum r^(i-j), r = 1-2/(1+span), in exact rationals; "
@@ -120,9 +121,11 @@ CLAIMED = {
  "C12": dict(text="Coq theorems (C12/Props.v): delim_chunk_invariant - for ANY cutting of a text into pieces (empty ones, a CR LF pair cut in two, pieces ending in any of CPython's line boundaries) DelimSource's re-assembly equals splitlines of the whole text "
                   "(inductive invariant relating the pending line / CR flag to a character automaton); utf8_chunk_invariant - grouping bytes into characters with one decoder state carried across chunks is chunking-independent (per-chunk decoding refuted); "
                   "disk_roundtrip - CR/LF-free lines written by DiskSink in any batching are read back identically; split_join, libsvm_roundtrip - the LibSVM/Manik grammar parses what the printer wrote; csv_roundtrip - the csv automaton parses RFC-4180 minimal quoting back to the cells; arff_dense_line_roundtrip - the csv automaton with ArffLineReader's dialect (one quote character, backslash escapes, doublequote off, skipinitialspace on) parses a data line written the Weka/OpenML way back to its values; "
+                  "arff_sparse_line_roundtrip - the steps of ArffLineReader._sparse (strip, drop braces, split at commas, key/value split at white space, re-joining the pieces of a quoted value while _unclosed judges it open, unquote, _unescape), "
+                  "modelled step by step, read a sparse line written the Weka way back to its pairs for values over any characters; "
                   "source_constants - the separators/terminators/strip sets and the decoder shape are those the translator extracted from the source on this run. Extracted models are compared with DelimSource, _byte_it_ (identity/gzip/deflate, chunk sizes 1-40), "
                   "DiskSink/DiskSource (plain/.gz), LibsvmReader/ManikReader and CsvReader; a table oracle compares printed tables with the parsed rows for LibSVM, Manik, CSV and ARFF dense/sparse in the Weka/OpenML dialect and in variant spellings (same table or an error).",
-            note="PARTIAL for ARFF: dense data lines with one quote character have a model and a theorem (compared with Python's csv module under the reader's dialect and with ArffLineReader); the header parser (regex splitting), the dialect detection, the fallback parser for mixed quote styles, sparse lines and the encoders have no Gallina model and are decided by the table oracle only. Trusted: Coq kernel, translator (statement templates, fails closed), extraction+driver, harness printers "
+            note="PARTIAL for ARFF: dense data lines with one quote character and sparse data lines have models and theorems (compared with Python's csv module under the reader's dialect and with ArffLineReader); the header parser (regex splitting), the dialect detection, the fallback parser for mixed quote styles and the encoders have no Gallina model and are decided by the table oracle only. Trusted: Coq kernel, translator (statement templates, fails closed), extraction+driver, harness printers "
                  "(Weka quoting, RFC-4180), zlib/gzip, the codec's code-point arithmetic, Python's csv module (re-implemented for one dialect and compared), int()/float(). A line handed to DiskSink contains no CR/LF; an embedded CSV line break reads back as \\n. "
                  "Open findings: a quoted '?' value reads as missing; tab separated ARFF with a comma inside a quoted value can be misread.",
             technique="Coq proof (automaton invariants, round-trip inductions) over translator-checked constants + extracted-model correspondence + printed-table oracle", design="§5 C12"),
